@@ -260,6 +260,6 @@ check('C19', 'E1', 'exploration',
       'integer and exact arithmetic disagree are outside the alphabet.',
       'DESIGN.md 2/C19')
 
-_PENDING = {'C10': 'check not built yet in this round (planned: bounded exhaustive exploration, see DESIGN.md section 2)', 'C19': 'check not built yet in this round (planned: bounded exhaustive exploration, see DESIGN.md section 2)'}
+_PENDING = {'C10': 'check not built yet in this round (planned: bounded exhaustive exploration, see DESIGN.md section 2)'}
 for _p, _why in _PENDING.items():
     NOT_APPLICABLE.append({'property_id': _p, 'reason': _why})
